@@ -52,6 +52,9 @@ CLAIMED = {
     'C10': dict(
         text="One attempt: no modelled panic (while polled or when called) or World::new error escapes; the Failed event carries the payload of the code that failed, the after hook still runs, Finished and the finished-notification (is_failed / retried) are emitted; on the simulated scheduler loop the panic hook is silenced while scenarios run and the original hook is back when execute() returns.",
         note=ATT + " Payloads are identity tags (payload TYPE - String / &str / other - is outside the model); what a real panic hook prints is outside."),
+    'C11': dict(
+        text="Every linearisation (chosen by solver-decided choices) of small event posets fed call by call through the real Normalize::handle_event coroutine and its four Emitter impls: the inner writer receives exactly the same multiset, per-attempt order kept, features / rules / attempts contiguous and properly nested, run-Finished last; run-Started, ParsingFinished and parser errors at once; head-of-line events in the same call (delivery counts after every item equal an independent reference normaliser); sequential input passes through item by item. The retry counter of the retried scenario is symbolic (attempts k, k+1).",
+        note="Kernels: <Normalize as Writer>::handle_event, Normalize::new, every Queue / CucumberQueue / FeatureQueue method, the four Emitter::emit coroutines, FinishedState::take_to_emit, Event::split/wrap/insert. LinkedHashMap is modelled as an insertion-ordered association map (re-insert of a present key moves it to the back as linked-hash-map 0.5.6 does); Source keys compare by pointer identity. Bounds: posets basic (2 features, scenario retried once + second scenario: 210 linearisations), rule (second scenario inside a rule: 924), immediate (ParsingFinished and a parser error anywhere: 840), thorough adds a third scenario concurrent with the retried one (7425); inner writer futures ready at once. Violations are replayed through the real writer::Normalize over a recording writer (driver mode stream) and judged by the same independent checker; sampled explored linearisations are replayed natively on every run to validate the translation. NOT covered: more than 2 features / 3 scenarios, more than one retry, step/hook events inside attempts (only Started/Finished), pending inner writers."),
 }
 NA_REASON = {
     'C14': 'reporters: the facts leave through serde_json / junit-report / console styling / io::Write and the oracle is a parse-back of text; nothing of the property is left once those library calls are opaque (DESIGN.md section 3)',
